@@ -279,7 +279,24 @@ class FlowDomain(Domain):
                 generic = len([t for t in tps if t != 'T']) > 0
                 wrapper = any(self._wraps(b.path, op) for op in ('write_from', 'fallocate', 'fsync', 'read_to'))
                 self._helperc[sn] = self._helperc.get(sn, False) or generic or wrapper
+            # functions the rule tables do not know (helpers split off by a refactor): the responsible function is
+            # their caller, so that a finding keeps its identity when code moves into a new helper
+            from .inline import known_functions
+            kn = known_functions()
+            self._known_short = {short(p) for p in kn} if kn is not None else None
+        if self._known_short is not None and name not in self._known_short:
+            return True
         return self._helperc.get(name, False)
+
+    def known_owner(self, fr):
+        """name of this frame's function, or of its nearest caller the rule tables know (new helpers are attributed to
+        the function they were split off from)"""
+        self._is_helper('')
+        names = [c.split('@')[0] for c in fr.chain] or [short(fr.body.path)]
+        k_ = len(names) - 1
+        while k_ > 0 and self._known_short is not None and names[k_] not in self._known_short:
+            k_ -= 1
+        return names[k_]
 
     def origin_of(self, fr):
         names = [c.split('@')[0] for c in fr.chain]
@@ -610,7 +627,7 @@ class FlowDomain(Domain):
                 self._ob('C02.5', fr, bi, ok, 'slice write of %s created in %s (%s)' % (
                     tcls[0], short(fr.body.path), 'private table' if private else 'cached table'))
                 if not ok:
-                    self._viol('C02.5', 'C02.5:%s:W(%s)' % (short(fr.body.path), tcls[0]), fr, bi,
+                    self._viol('C02.5', 'C02.5:%s:W(%s)' % (self.known_owner(fr), tcls[0]), fr, bi,
                                '%s writes a cached %s slice without resolving whether its host cluster is still in '
                                'the new-cluster set: a later flush of a sibling slice zeroes the whole cluster and '
                                'destroys this (then clean) slice; path %s' % (
@@ -896,6 +913,11 @@ class FlowDomain(Domain):
         names = [c.split('@')[0] for c in fr.chain]
         # the function that asked for the release (caller of the decrement loop)
         freer = names[-2] if len(names) >= 2 else names[-1]
+        # a helper the rule tables do not know (split off by a refactor): the requester is its caller
+        k_ = len(names) - 2
+        while k_ > 0 and self._is_helper(names[k_]) and self._known_short is not None and names[k_] not in self._known_short:
+            k_ -= 1
+            freer = names[k_]
         if ('F', 'NOTALLOC') not in tok and ('F', 'INFREE') in tok:
             self._ob('C04.O4', fr, bi, True, 'release requested by %s of clusters allocated in this section' % freer,
                      site='release@%s(alloc-derived)' % freer)
